@@ -773,7 +773,24 @@ func runCrash(c CrashCase, child string) (res vt.Result, fail *vt.Fail) {
 	}
 	op := crash.Op{Op: c.Step.Op, Ref: opRef, User: c.Step.Cred.User, Pass: c.Step.Cred.Pass, Refresh: c.Step.Cred.Refresh, Access: c.Step.Cred.Access}
 	sc := &crash.Script{Kind: "cred", Dir: path, Marker: filepath.Join(root, "MARK"), Op: op}
-	sc.Probe = append(append([]string{opRef}, addrs...), otherKeys...)
+	// addresses to compare after a failed call. A bare host that several keys of
+	// other forms normalise to is answered from whichever the map yields first: two
+	// stores may rightly differ there, so it is left out.
+	for _, a := range append(append([]string{opRef}, addrs...), otherKeys...) {
+		keys := map[string]bool{opRef: true}
+		for _, e := range c.Doc.Entries {
+			keys[e.Key] = true
+		}
+		forms := 0
+		for k := range keys {
+			if k != a && toHostname(k) == a {
+				forms++
+			}
+		}
+		if forms <= 1 {
+			sc.Probe = append(sc.Probe, a)
+		}
+	}
 	r := &crash.Runner{Child: child, Work: root}
 	restore()
 	pts, err := r.Baseline(sc)
@@ -875,9 +892,10 @@ func runCrash(c CrashCase, child string) (res vt.Result, fail *vt.Fail) {
 			// the runtime itself may abort on a failed call it depends on: not judged
 			continue
 		}
-		if exit == 81 {
+		if exit >= 81 {
 			detail, _ := os.ReadFile(sc.Marker + ".disagree")
-			return res, vt.Failf("C18/store-and-file-disagree", "%s on syscall %d/%d (%s) during %s %s (persistent: %v): %s", errno, k+1, len(pts), pt.Line, c.Step.Op, opRef, persistent, detail)
+			onFile, _ := os.ReadFile(path)
+			return res, vt.Failf("C18/store-and-file-disagree", "%s on syscall %d/%d (%s) during %s %s (persistent: %v): Get(%q) differs between the store the failed call ran on and a store opened on the file; %s; the file now holds: %s", errno, k+1, len(pts), pt.Line, c.Step.Op, opRef, persistent, sc.Probe[exit-81], detail, onFile)
 		}
 		faulted++
 		res.Evals++
